@@ -100,3 +100,23 @@ def _merge():
 
 
 _merge()
+
+# ---------------------------------------------------------------- quick-tier budget
+# Quick = the check run on every change (target: a few minutes per property on 16 cores). Harnesses matching these
+# patterns stay registered but run in the thorough tier only (converses, getter agreement, heavier shapes).
+import re as _re
+QUICK_DEMOTE = {
+    'C20': [r'_accepts$', r'getters', r'getter_', r'update_name', r'update_valid_until', r'limit_not_exceeded$',
+            r'context_rules::remove_policy$', r'context_rules::add_signer$'],
+    'C01': [r'^votes::ex_', r'^gates::.*_ex::', r'^gates::capped'],
+    'C02': [r'^votes::ex_', r'^gates::.*_ex::'],
+}
+for _pid, _pats in QUICK_DEMOTE.items():
+    if _pid in CHECKS:
+        _new = []
+        for _s in CHECKS[_pid].get('kani', []):
+            _s = dict(_s)
+            if _s.get('tier', 'quick') == 'quick' and any(_re.search(_p, _s['harness']) for _p in _pats):
+                _s['tier'] = 'thorough'
+            _new.append(_s)
+        CHECKS[_pid]['kani'] = _new
